@@ -179,7 +179,11 @@ func main() {
 					}
 					continue
 				}
-				best, all := solve(o.query, *timeout)
+				tmo := *timeout
+				if o.quickOnly && tmo > 3 {
+					tmo = 3
+				}
+				best, all := solve(o.query, tmo)
 				o.Solver, o.Secs = best.Solver, 0
 				for _, a := range all {
 					o.Secs += a.Secs
